@@ -192,7 +192,7 @@ def recording_subclass(base, events):
             events.append(("onOpen",))
 
         def onMessage(self, payload, isBinary):
-            events.append(("onMessage", bytes(payload), bool(isBinary)))
+            events.append(("onMessage", bytes(payload), bool(isBinary), bool(getattr(self, "_isMessageCompressed", False))))
 
         def onPing(self, payload):
             events.append(("onPing", bytes(payload)))
